@@ -11,7 +11,7 @@ from core.common import f2b, b2f, close
 from core import impl as I
 
 ID = "C13"
-LEAN_MODULES = ["AcnProofs.C13"]
+LEAN_MODULES = ["AcnProofs.C13", "AcnProofs.Lemmas.CodeTieEvse"]
 DRIVER = "drv_C13"
 REQUIRED_THEOREMS = [
     "Acn.C13.cont_valid_iff", "Acn.C13.cont_valid_iff_inf", "Acn.C13.deadband_valid_iff",
